@@ -41,9 +41,10 @@ const (
 	stTiming        // link latency, reader deadlines with retry, writer pauses
 	stStall         // one raw endpoint stops receiving at its k-th I/O call; readers use deadlines
 	stAdversary     // frame-aware man in the middle on the raw connection (authenticated layers only)
+	stPeerClose     // no fault at all: one side closes the whole connection as soon as it has finished, the other side's readers lag
 )
 
-var stratumName = [...]string{"clean", "timing", "stall", "adversary"}
+var stratumName = [...]string{"clean", "timing", "stall", "adversary", "peer-close"}
 
 // adversary actions
 const (
@@ -80,6 +81,7 @@ type chanPlan struct {
 	bufs     []bufSpec
 	deadline time.Duration // 0 = reader sets no deadline
 	retries  int
+	startDelay time.Duration // the reader starts late (slow consumer)
 	postEOF  int
 	frames   []int // cumulative ends of the notional Noise frames of the planned writes
 }
@@ -117,7 +119,14 @@ type stallPlan struct {
 	k     int // fires at the endpoint's k-th I/O call after arming
 }
 
+type closePlan struct {
+	on    bool
+	sideB bool          // which side closes its end of the connection once all ITS tasks are done
+	delay time.Duration // after that instant
+}
+
 type plan struct {
+	pclose   closePlan
 	layer    int
 	stratum  int
 	mode     simnet.LinkMode // chunking of the data phase
@@ -130,8 +139,8 @@ type plan struct {
 
 func (p *plan) describe() []string {
 	var out []string
-	out = append(out, fmt.Sprintf("layer=%s stratum=%s link=%s streams=%d adversary=[%s] stall=%+v latencies=%v",
-		layerName[p.layer], stratumName[p.stratum], modeName(p.mode), p.nstreams, p.adv, p.stall, p.lat))
+	out = append(out, fmt.Sprintf("layer=%s stratum=%s link=%s streams=%d adversary=[%s] stall=%+v peer-close=%+v latencies=%v",
+		layerName[p.layer], stratumName[p.stratum], modeName(p.mode), p.nstreams, p.adv, p.stall, p.pclose, p.lat))
 	for s := range p.ch {
 		for d := 0; d < 2; d++ {
 			c := &p.ch[s][d]
@@ -139,8 +148,8 @@ func (p *plan) describe() []string {
 			for _, b := range c.bufs {
 				bs = append(bs, b.String())
 			}
-			out = append(out, fmt.Sprintf("  plan %s: writes=%v pauses=%v total=%d | read bufs cycle=[%s] deadline=%v retries=%d postEOF=%d",
-				chanID(s, d), c.writes, c.pauses, c.total, strings.Join(bs, " "), c.deadline, c.retries, c.postEOF))
+			out = append(out, fmt.Sprintf("  plan %s: writes=%v pauses=%v total=%d | read bufs cycle=[%s] deadline=%v retries=%d start-delay=%v postEOF=%d",
+				chanID(s, d), c.writes, c.pauses, c.total, strings.Join(bs, " "), c.deadline, c.retries, c.startDelay, c.postEOF))
 		}
 	}
 	return out
@@ -163,7 +172,7 @@ var (
 func genPlan(g simrt.Gen) *plan {
 	p := &plan{}
 	p.layer = g.Weighted(6, 3, 2, 3, 2, 3, 2)
-	p.stratum = g.Weighted(5, 2, 1, 4)
+	p.stratum = g.Weighted(5, 2, 1, 4, 2)
 	if p.stratum == stAdversary && p.layer == layPnet {
 		p.stratum = stTiming // the PSK stream cipher is not authenticated: fidelity part only
 	}
@@ -198,6 +207,10 @@ func genPlan(g simrt.Gen) *plan {
 		p.stall.on = true
 		p.stall.sideB = g.Bool()
 		p.stall.k = 1 + g.Int(30)
+	case stPeerClose:
+		p.pclose.on = true
+		p.pclose.sideB = g.Bool()
+		p.pclose.delay = []time.Duration{0, time.Millisecond, time.Second}[g.Int(3)]
 	}
 	return p
 }
@@ -263,6 +276,9 @@ func genChan(g simrt.Gen, p *plan, small bool, budget *int) chanPlan {
 			c.deadline = readDeadline[len(readDeadline)-1]
 			c.retries = 2
 		}
+	}
+	if p.stratum == stTiming || p.stratum == stPeerClose {
+		c.startDelay = []time.Duration{0, 0, 2 * time.Second, 5 * time.Second}[g.Int(4)]
 	}
 	// notional Noise frames of the planned writes
 	end := 0
